@@ -72,6 +72,8 @@ def pats_for(N, R, rng, M=None, tries=200, target=None):
         best = gen_tt_pattern(N, R, rng, M=M, dense_slices=True)
     return [[list(q) for q in pk] for pk in best]
 
+THOROUGH_SEEDS = 6
+
 
 def cases(tier, seed):
     rng = random.Random(seed + 10)
@@ -99,6 +101,10 @@ def cases(tier, seed):
             cs.append({'scen': 'tt_reshape', 's': s})
             if rng.random() < 0.4:
                 cs.append({'scen': 'tt_reshape', 's': dict(s, eps='default')})
+    # arbitrary sign-free entries, rank-1 sources (incl. the zero tensor), mode-merging targets (splits of a dense rank-1 block need a general SVD: outside)
+    for N, t in [([2, 2], [4]), ([2, 3], [6]), ([2, 2], [2, 1, 2]), ([2, 2, 2], [4, 2]), ([3, 2], [1, 6])] + ([([2, 2, 2], [8]), ([3, 2, 2], [6, 2]), ([2, 2, 2, 2], [4, 4])] if th else []):
+        cs.append({'scen': 'tt_reshape', 's': {'N': N, 'R': [1] * (len(N) + 1), 'patterns': [], 'general': True, 'target': t}})
+        cs.append({'scen': 'tt_reshape', 's': {'N': N, 'R': [1] * (len(N) + 1), 'patterns': [], 'general': True, 'target': t, 'eps': 'default'}})
     # ---- reshape (operators)
     for M, N, R, tM, tN in [([4], [4], [1, 1], [2, 2], [2, 2]), ([2, 2], [2, 2], [1, 2, 1], [4], [4]), ([4, 2], [2, 2], [1, 2, 1], [2, 2, 2], [2, 2, 1]),
                             ([2, 2], [3, 2], [1, 2, 1], [4], [6]), ([2, 2], [2, 2], [1, 2, 1], [2, 1, 2], [2, 1, 2]), ([4], [2], [1, 1], [2, 2], [1, 2])]:
